@@ -24,6 +24,11 @@ type Spec struct {
 	Text   string   `json:"text,omitempty"`
 	Allow  bool     `json:"allow_trailing,omitempty"`
 	Docs   []string `json:"docs,omitempty"` // documents validated against a schema spec
+	// Group / ShareOnly: schema specs of one group may take type objects from each other's objects -
+	// only the types named in ShareOnly; the other types (which the shared ones refer to) are each
+	// root's own and may be defined differently
+	Group     string   `json:"share_group,omitempty"`
+	ShareOnly []string `json:"share_only,omitempty"`
 }
 
 // Obj is a live object built from a spec.
@@ -51,6 +56,14 @@ func BuildSharing(sp *Spec, from *Obj) *Obj {
 		var shared map[string]jschema.Schema
 		if from != nil {
 			shared = from.Types
+			if len(sp.ShareOnly) > 0 {
+				shared = map[string]jschema.Schema{}
+				for _, n := range sp.ShareOnly {
+					if o, ok := from.Types[n]; ok {
+						shared[n] = o
+					}
+				}
+			}
 		}
 		o.S, add, o.Types = lib.BuildSharing(sp.Schema, shared)
 		o.AddRes = canonRes(add)
